@@ -60,22 +60,15 @@ Qed.
 Lemma all_sepfree_app a b : all_sepfree (a ++ b) = all_sepfree a && all_sepfree b.
 Proof. unfold all_sepfree. apply forallb_app. Qed.
 
-Lemma strip_last_empty_cons_nil X x :
-  last_opt X = Some x -> x <> [] -> strip_last_empty ([] :: X) = [] :: X.
-Proof.
-  intros Hl Hx. eapply strip_last_empty_id; [|exact Hx].
-  destruct X; [discriminate|]. exact Hl.
-Qed.
-
-Lemma split_colon (os X : list str) o os' xl :
-  os = o :: os' -> X <> [] -> last_opt X = Some xl -> xl <> [] ->
+Lemma split_colon (os X : list str) o os' :
+  os = o :: os' -> X <> [] ->
   all_sepfree (map (cons c_colon) os) = true -> all_sepfree X = true ->
   parse_directive_text adm_class [] (unlines (map (cons c_colon) os ++ [] :: X))
   = Ok {| p_args := []; p_optblock := Some (join nl os); p_body := X;
           p_off := S (length os);
           p_warn_split := false; p_warn_content := false |}.
 Proof.
-  intros Hos Hne Hl Hxl Hsfo Hsfx. unfold parse_directive_text, parse_directive_options.
+  intros Hos Hne Hsfo Hsfx. unfold parse_directive_text, parse_directive_options.
   cbn [d_optspec adm_class].
   assert (Hsf : all_sepfree (map (cons c_colon) os ++ [] :: X) = true).
   { rewrite all_sepfree_app, Hsfo. simpl. exact Hsfx. }
@@ -86,8 +79,6 @@ Proof.
   replace (lstrip (c_colon :: r)) with (c_colon :: r) by reflexivity.
   replace (startswith (c_colon :: r) [c_colon]) with true by (simpl; destruct r; reflexivity).
   rewrite <- Hr. rewrite (splitlines_unlines _ Hsf). rewrite span_opts_colon.
-  assert (Hsf2 : all_sepfree ([] :: X) = true) by exact Hsfx.
-  rewrite (splitlines_join _ Hsf2). rewrite (strip_last_empty_cons_nil X xl Hl Hxl).
   rewrite app_length, map_length. cbn [length].
   match goal with
   | |- context [(?a + ?b - ?c)%nat] =>
